@@ -96,3 +96,12 @@ def _m_cap(case, v, args):
     those caps (recomputed independently by _reach_caps) and uses the *_beyond_cap kinds only when the library is
     optimal within the caps, i.e. the better witness necessarily traverses some arc more often than its cap."""
     return case.get("fam") == "cyc" and v.get("kind") in ("lae_not_optimal_beyond_cap", "mpe_not_optimal_beyond_cap", "mpe_unsolved_beyond_cap")
+
+
+@matcher("minflowdecompcycles_nonconserving_flow_not_rejected")
+def _m_mfdc_noncons(case, v, args):
+    """MinFlowDecompCycles documents 'ValueError if the graph does not satisfy flow conservation' but performs no such check:
+    a non-conserving flow (edge mode, nothing ignored) is searched for every k and ends unsolved without an error."""
+    return (v.get("kind") == "invalid_input_not_rejected" and case.get("cls") == "MinFlowDecompCycles"
+            and case.get("origin") == "edge" and "nonconserving" in (case.get("muts") or [])
+            and all(m in ("nonconserving", "k_frac") for m in case.get("muts")))
